@@ -97,6 +97,7 @@ const (
 	OFFromU    // unsigned bv -> fp, RNE
 	OFToS      // fp -> signed bv, RTZ ; P1 = width (unspecified when out of range)
 	OFToU      // fp -> unsigned bv, RTZ
+	OSMulNoOvf // signed multiplication neither overflows nor underflows (Bool)
 )
 
 const (
